@@ -86,11 +86,16 @@ class CountingInline final : public yaclib::IExecutor {
 const char* kProducers[] = {"value", "error", "exception", "drop"};
 const char* kConsumers[] = {"then_inline", "then_e",    "detach",   "detach_inline", "detach_e",
                             "get_move",    "get_const", "wait",     "connect",       "drop",
-                            "wait_then",   "peek_get_move"};
+                            "wait_then",   "peek_get_move",
+                            // a timed wait (deadline in virtual ns) that may give up, then the future is consumed
+                            "waitfor5_get", "waitfor25_get", "waitfor45_get", "waitfor5_then", "waitfor25_then",
+                            "waitfor45_then"};
+constexpr int kConsumerCount = 18;
 
 struct Scenario {
   int pk;
   int ck;
+  int delay = 0;  // the producer sleeps this many virtual ns before fulfilling (timed-wait scenarios)
 };
 
 long Expected(int pk) {
@@ -106,7 +111,11 @@ long Expected(int pk) {
   }
 }
 
-void Produce(int pk, yaclib::Promise<Payload, Err> p) {
+void Produce(int pk, yaclib::Promise<Payload, Err> p, int delay_ns) {
+  if (delay_ns > 0) {
+    // lets a timed wait on the other side reach its deadline before, around or after the fulfilment
+    yaclib_std::this_thread::sleep_for(std::chrono::nanoseconds(delay_ns));
+  }
   vrt::Event("set " + std::to_string(Expected(pk)));
   switch (pk) {
     case 0:
@@ -211,6 +220,34 @@ void Consume(int ck, yaclib::Future<Payload, Err> f, Obs& obs, CountingInline& e
       std::move(f).DetachInline(cb);
       break;
     }
+    case 12:
+    case 13:
+    case 14:
+    case 15:
+    case 16:
+    case 17: {  // WaitFor(d); whatever it answers, the future must still deliver exactly once afterwards
+      const int d = (ck - 12) % 3 == 0 ? 5 : ((ck - 12) % 3 == 1 ? 25 : 45);
+      vrt::Event("twait");
+      const bool ok = yaclib::WaitFor(std::chrono::nanoseconds(d), f);
+      vrt::Event(std::string("twret ") + (ok ? "1" : "0"));
+      if (ok) {
+        peek(f);  // Ready() / Get const& right after a successful timed wait
+        if (obs.got_count == 0) {
+          vrt::Fail("WaitFor returned true but the future is not Ready");
+        }
+        obs.got_count = 0;
+      }
+      if (ck < 15) {
+        vrt::Event("wait");
+        R r = std::move(f).Get();
+        ++obs.got_count;
+        obs.got_code = Code(r);
+        vrt::Event("got " + std::to_string(obs.got_code));
+      } else {
+        std::move(f).DetachInline(cb);
+      }
+      break;
+    }
     case 11: {  // poll once, then Get&&
       peek(f);
       obs.got_count = 0;
@@ -231,7 +268,7 @@ void RunScenario(Scenario sc) {
   CountingInline exe;
   yaclib_std::thread tp([&, p = std::move(p)]() mutable {
     vrt::NameThread("P");
-    Produce(sc.pk, std::move(p));
+    Produce(sc.pk, std::move(p), sc.delay);
   });
   yaclib_std::thread tc([&, f = std::move(f)]() mutable {
     vrt::NameThread("C");
@@ -241,7 +278,7 @@ void RunScenario(Scenario sc) {
   tc.join();
   // ---- oracle (property text): exactly once, intact, nothing if dropped
   const long want = Expected(sc.pk);
-  const bool attach = sc.ck == 0 || sc.ck == 1 || sc.ck == 3 || sc.ck == 4 || sc.ck == 8 || sc.ck == 10;
+  const bool attach = sc.ck == 0 || sc.ck == 1 || sc.ck == 3 || sc.ck == 4 || sc.ck == 8 || sc.ck == 10 || sc.ck >= 15;
   const bool silent = sc.ck == 2 || sc.ck == 9;
   if (attach) {
     if (obs.cb_count != 1) {
@@ -255,7 +292,7 @@ void RunScenario(Scenario sc) {
   if (silent && (obs.cb_count != 0 || obs.got_count != 0)) {
     vrt::Fail("something ran although the future was dropped");
   }
-  if (sc.ck == 5 || sc.ck == 7 || sc.ck == 11) {
+  if (sc.ck == 5 || sc.ck == 7 || sc.ck == 11 || (sc.ck >= 12 && sc.ck <= 14)) {
     if (obs.got_count != 1 || obs.got_code != want) {
       vrt::Fail("Get returned " + std::to_string(obs.got_code) + " (" + std::to_string(obs.got_count) +
                 " times) but " + std::to_string(want) + " was set");
@@ -277,11 +314,19 @@ void RunScenario(Scenario sc) {
 int main(int argc, char** argv) {
   vrt::Main m(argc, argv);
   for (int pk = 0; pk < 4; ++pk) {
-    for (int ck = 0; ck < 12; ++ck) {
+    for (int ck = 0; ck < kConsumerCount; ++ck) {
       std::string name = std::string(kProducers[pk]) + "/" + kConsumers[ck];
-      m.Scenario(name, [=] {
-        RunScenario(Scenario{pk, ck});
-      });
+      if (ck < 12) {
+        m.Scenario(name, [=] {
+          RunScenario(Scenario{pk, ck, 0});
+        });
+      } else {
+        for (int delay : {10, 20, 30, 40}) {
+          m.Scenario(name + "@p" + std::to_string(delay), [=] {
+            RunScenario(Scenario{pk, ck, delay});
+          });
+        }
+      }
     }
   }
   return m.Finish();
